@@ -571,7 +571,7 @@ fn write_evidence(
             "Cli tier additionally: main(), `scrut test` command, FileParser, Markdown/Cram parsers, TestEnvironment, renderers",
             "temp / state / work directories on the real filesystem"],
         "stub": ["subprocess crate (spawn, pipes, poll loop = transcription of 0.2.15, deadline, wait)", "kernel pipes and process table", "bash and the body of bash_runner.template (front-end reads two anchors)", "Instant / sleep (virtual clock)"],
-        "real tier (C12 carrier, C13 conformance only)": "real bash processes through the pass-through seam; strictly sequential"
+        "real tier (C12 carrier, C13 conformance, C18 environment as seen by the test cases)": "real bash processes through the pass-through seam; strictly sequential"
     });
     let mut coverage = serde_json::json!({
         "evaluations": st.runs,
